@@ -114,3 +114,59 @@ def table_check(prop, repo, tier, seed, extra):
 
 from pyvc.bounded import bounded_check
 binary.extra_checks = [table_check, bounded_check("bounded.c01", "broadcast-functions", ["C01"])]
+
+
+# ---------------------------------------------------------------------------
+# Stream.__getattr__(name) / Stream.__call__(*args, **kwargs): elementwise attribute access / call, lazily.
+# getattr(x, name) and x(*args, **kwargs) on the (uninterpreted) elements are uninterpreted functions of the element (the name
+# and the arguments are the same for every element).
+from pyvc import sym as _sym
+_ATTR = z3.Function("ATTR_of_element", _sym.ELEM, _sym.ELEM)
+_CALL = z3.Function("CALL_of_element", _sym.ELEM, _sym.ELEM, _sym.ELEM, _sym.ELEM)
+
+
+def _getattr_model(m, args, kw):
+    a, name = args
+    if _sym.is_z3(a) and a.sort() == _sym.ELEM and isinstance(name, str) and not kw:
+        return _ATTR(a)
+    raise _sym.Unsupported("getattr")
+
+
+_getattr_model._pyvc_callee = True
+
+
+def _call_elem(m, f, args, kwargs):
+    if _sym.is_z3(f) and f.sort() == _sym.ELEM:
+        a0 = m.params0["args"]
+        k0 = m.params0["kwargs"]
+        if list(args) == list(a0) and kwargs == k0 and len(a0) == 1 and list(k0) == ["key"]:
+            return _CALL(f, a0[0], k0["key"])     # the same positional and keyword arguments for every element
+        raise _sym.Unsupported("element called with other arguments than the ones given")
+    return NotImplemented
+
+
+_gx_loop = Loop(inv=[("C:count", "nout == pos(d0) - p0")])
+_gx_comp = Comp(elem=Elem, ensures=[("S:one-output-per-remaining-element", "finite(d0) and nout == length(d0) - p0")])
+_gx_ens = [("C:returns-a-Stream-of-the-verified-generator", "is_stream(result) and gen_label(data_of(result)) == 'g1' and same(src_of(data_of(result)), d0)"),
+           ("C02:construction-reads-nothing", "pos(d0) == p0")]
+sgetattr = Contract(
+    name="Stream.__getattr__", qual="audiolazy/lazy_stream.py::Stream.__getattr__", kind="function", props=["C01", "C02"],
+    modes={"an-attribute-name": Mode(params=dict(self=lib.StreamObj(), name=Const("real")), ensures=_gx_ens),
+           "the-iterator-protocol-name": Mode(params=dict(self=lib.StreamObj(), name=Const("__next__")), ensures=[("S:streams-are-iterable-not-iterators", "False")],
+                                              raises={"AttributeError": None})},
+    ghost_init=_ghost, loops={1: _gx_loop}, comps={1: _gx_comp},
+    yields={"g1": Yield(post=[("S:k-th-output-is-the-attribute-of-the-k-th-element", "result == ATTR(arr(d0)[p0 + k])"), ("C02:reads-k+1", "pos(d0) == p0 + k + 1")])},
+    spec_env={"ATTR": _sym.UFn(_ATTR, 1)}, globs=dict(G, getattr=_getattr_model, NEXT_NAME="__next__"), callees=CAL, replay="oracles.bounded_adapter:c01",
+    stated=["stream.name is the stream of the elements' attributes, lazily; asking for the iterator protocol method raises AttributeError"])
+sgetattr.ghost_const = {"d0", "p0"}
+scall = Contract(
+    name="Stream.__call__", qual="audiolazy/lazy_stream.py::Stream.__call__", kind="function", props=["C01", "C02"],
+    modes={"one-positional-one-keyword": Mode(params=dict(self=lib.StreamObj(), args=lambda m, n: (z3.Const("arg0", _sym.ELEM),),
+                                                          kwargs=lambda m, n: {"key": z3.Const("kwarg_key", _sym.ELEM)}), ensures=_gx_ens)},
+    ghost_init=_ghost, loops={1: _gx_loop}, comps={1: _gx_comp},
+    yields={"g1": Yield(post=[("S:k-th-output-is-the-k-th-element-called-with-the-same-arguments", "result == CALL(arr(d0)[p0 + k], args[0], kwargs['key'])"),
+                              ("C02:reads-k+1", "pos(d0) == p0 + k + 1")])},
+    spec_env={"CALL": _sym.UFn(_CALL, 3)}, globs=G, callees=CAL, replay="oracles.bounded_adapter:c01",
+    stated=["stream(*args, **kwargs) is the stream of the elements called with the same arguments, lazily"])
+scall.ghost_const = {"d0", "p0"}
+scall.call_hook = _call_elem
